@@ -100,7 +100,7 @@ func TestVerifC06CRM(t *testing.T) {
 			c1, c2 := net.Pipe()
 			done := make(chan error, 1)
 			go func() {
-				hctx, hcancel := context.WithTimeout(ctx, 5*time.Second)
+				hctx, hcancel := context.WithTimeout(ctx, 20*time.Second)
 				defer hcancel()
 				done <- crm.handleIncomingRequest(hctx, &c06stream{c: c1})
 				c1.Close()
@@ -108,7 +108,7 @@ func TestVerifC06CRM(t *testing.T) {
 			// the peer
 			func() {
 				defer c2.Close()
-				_ = c2.SetDeadline(time.Now().Add(5 * time.Second))
+				_ = c2.SetDeadline(time.Now().Add(20 * time.Second))
 				reader := protoio.NewDelimitedReader(c2, 2048)
 				writer := protoio.NewDelimitedWriter(c2)
 				if sc.hsOK || sc.wrongTarget {
@@ -134,7 +134,7 @@ func TestVerifC06CRM(t *testing.T) {
 			var herr error
 			select {
 			case herr = <-done:
-			case <-time.After(10 * time.Second):
+			case <-time.After(40 * time.Second):
 				t.Fatalf("handleIncomingRequest did not return")
 			}
 			// what was recorded
